@@ -101,7 +101,7 @@ func TestVerifC10Writer(t *testing.T) {
 		var ch *Chain
 		var ops, obs []string
 		kinds := map[string]int{}
-		nops := 4 + r.Intn(16)
+		nops := 4 + r.Intn(10)
 		qn := 0
 		var req *dns.Msg
 		for op := 0; op < nops; op++ {
